@@ -145,8 +145,8 @@ func OrgPD() map[string]any {
 			"id": "id_org",
 			"constraints": map[string]any{"fields": []any{
 				map[string]any{"path": []string{"$.type"}, "filter": map[string]any{"type": "string", "const": "NutsOrganizationCredential"}},
-				map[string]any{"id": "organization_name", "path": []string{"$.credentialSubject.organization.name"}, "filter": map[string]any{"type": "string"}},
-				map[string]any{"id": "organization_city", "path": []string{"$.credentialSubject.organization.city"}, "filter": map[string]any{"type": "string"}},
+				map[string]any{"id": "organization_name", "path": []string{"$.credentialSubject.organization.name", "$.credentialSubject[0].organization.name"}, "filter": map[string]any{"type": "string"}},
+				map[string]any{"id": "organization_city", "path": []string{"$.credentialSubject.organization.city", "$.credentialSubject[0].organization.city"}, "filter": map[string]any{"type": "string"}},
 			}},
 		}},
 	}
